@@ -162,9 +162,9 @@ theorem precondition_needed :
   ⟨[.recv 1250, .send 1200, .send 1200, .send 1200, .send 1200], by decide⟩
 
 /-- A datagram made of several packets is charged packet by packet; the clamps compose. -/
-theorem packetSent_compose (l a b : Int) (ha : 0 ≤ a) (hb : 0 ≤ b) :
+theorem packetSent_compose (l a b : Int) (hl : l ≤ unlimited) (ha : 0 ≤ a) (hb : 0 ≤ b) :
     packetSent (packetSent l a) b = packetSent l (a + b) := by
-  unfold packetSent unlimited
+  unfold packetSent unlimited at *
   repeat' split
   all_goals omega
 
